@@ -194,6 +194,23 @@ def run(ctx):
                construct='LatexArgumentsParser.parse: result')
 
     # ------------------------------------------------------------ R02d
+    closing_predicates(ctx, repo, 'R02d')
+
+    # ------------------------------------------------------------ R02e
+    _rest(ctx, repo)
+    ctx.assume('equality of the produced tree with the grammar derivation of the document is not '
+               'decided; only dispatch, slot and delimiter discipline are')
+    return 'other', (
+        'Decides the dispatch skeleton of the parser: every token kind the reader emits has a '
+        'handler, every standard argument letter builds the parser of its kind and optionality, one '
+        'slot per declared argument, closing predicates test kind and closer, promoted delimiters '
+        'are restored for children, absent optional arguments consume nothing.  These are necessary '
+        'for well-formed documents to be parsed into their written structure; equality with the '
+        'derivation tree is not decided.')
+
+
+def closing_predicates(ctx, repo, rule):
+    dm = repo.mod(DELIM)
     n_pred = 0
     for mod in repo.modules.values():
         for q, f in mod.functions.items():
@@ -211,7 +228,7 @@ def run(ctx):
                 facts = [(unparse(t), pol) for t, pol in atomic_facts(r)]
                 kind = [t for t, pol in facts if pol and t.startswith(tok + '.tok ')]
                 eq = [t for t, pol in facts if pol and t.startswith(tok + '.arg == ')]
-                ctx.decide('R02d', bool(kind) and bool(eq), mod, r,
+                ctx.decide(rule, bool(kind) and bool(eq), mod, r,
                            'closes on %s and %s' % (kind, eq),
                            '%s accepts a token as the closing delimiter on the facts %s only: it '
                            'must test the token kind AND equality with the expected closer, '
@@ -219,17 +236,20 @@ def run(ctx):
                            % (q, [t for t, pol in facts if pol]),
                            construct='%s: return True' % q)
     ctx.analysed['closing_predicates'] = n_pred
-    dm = repo.mod(DELIM)
     mcp = dm.methods('LatexDelimitedExpressionParserInfo').get('make_content_parser')
     ok = mcp is not None and any(
         isinstance(c, ast.Call) and call_name(c) == 'LatexGeneralNodesParser' and
         isinstance(kwarg(c, 'require_stop_condition_met'), ast.Constant) and
         kwarg(c, 'require_stop_condition_met').value is True for c in ast.walk(mcp))
-    ctx.decide('R02d', ok, dm, mcp or dm.cls('LatexDelimitedExpressionParserInfo'),
+    ctx.decide(rule, ok, dm, mcp or dm.cls('LatexDelimitedExpressionParserInfo'),
                'content parser requires the closing delimiter',
                'the content parser of delimited constructs does not require its stop condition: an '
                'unclosed group is accepted', construct='make_content_parser: require_stop_condition_met')
 
+
+
+def _rest(ctx, repo):
+    dm = repo.mod(DELIM)
     # ------------------------------------------------------------ R02e
     gm = dm.methods('LatexDelimitedGroupParserInfo').get('make_child_parsing_state')
     if gm is None:
@@ -301,15 +321,6 @@ def run(ctx):
     ctx.decide('R02g', ok, wt.mod, wt.specials.get('\n\n', {}).get('rec').node if ok else None,
                'paragraph break specials declared', 'no specials declared for the paragraph break',
                construct='walker table: paragraph specials')
-    ctx.assume('equality of the produced tree with the grammar derivation of the document is not '
-               'decided; only dispatch, slot and delimiter discipline are')
-    return 'other', (
-        'Decides the dispatch skeleton of the parser: every token kind the reader emits has a '
-        'handler, every standard argument letter builds the parser of its kind and optionality, one '
-        'slot per declared argument, closing predicates test kind and closer, promoted delimiters '
-        'are restored for children, absent optional arguments consume nothing.  These are necessary '
-        'for well-formed documents to be parsed into their written structure; equality with the '
-        'derivation tree is not decided.')
 
 
 def _arg_branches(gai):
